@@ -50,6 +50,8 @@ const (
 	StatusModifier  = "status.Modifier"
 	CookieModifier  = "cookie.Modifier"
 	Noop            = "noop.Modifier"
+	PortModifier    = "port.Modifier"
+	Inert           = "verif.Inert" // a harness-defined node type the embedding program registers with parse.Register; does nothing
 	SkipRoundTrip   = "skip.RoundTrip"
 
 	StatusVerifier   = "status.Verifier"
@@ -65,11 +67,15 @@ const (
 // rejected as a whole).
 const (
 	FaultUnknownName      = "unknown-name"      // the node names an unregistered modifier
-	FaultScopeUnsupported = "scope-unsupported" // single-sided leaf scoped to its other side
+	FaultScopeUnsupported = "scope-unsupported" // single-sided leaf whose scope lists its other side; FaultAt picks the position (ScopeUnsupportedVariants)
 	FaultScopeInvalid     = "scope-invalid"     // a scope string that is neither request nor response
 	FaultTwoKeys          = "two-keys"          // the node's object has two keys
 	FaultNoModifier       = "no-modifier"       // a filter without "modifier", or a priority entry (index FaultAt) without "modifier": names nothing to apply
 )
+
+// ScopeUnsupportedVariants: where a scope list names the kind a one-sided
+// type does not support (o = the supported kind, x = the unsupported one).
+var ScopeUnsupportedVariants = []string{"x", "ox", "xo", "xx", "oox", "oxo"}
 
 // Node is one node of a configuration tree.
 type Node struct {
@@ -81,7 +87,7 @@ type Node struct {
 	Kids     []*Node           `json:"kids,omitempty"`      // groups: children in listed order
 	Prio     []int             `json:"prio,omitempty"`      // priority group: priority per child
 	NoPrio   []bool            `json:"no_prio,omitempty"`   // priority group: the entry omits the "priority" key (legal, means 0)
-	FaultAt  int               `json:"fault_at,omitempty"`  // FaultNoModifier on a priority group: index of the entry
+	FaultAt  int               `json:"fault_at,omitempty"`  // FaultNoModifier on a priority group: index of the entry; FaultScopeUnsupported: variant
 	P        map[string]string `json:"p,omitempty"`         // string parameters (name, value, method, scheme, ...)
 	N        int               `json:"n,omitempty"`         // statusCode
 	Names    []string          `json:"names,omitempty"`     // header.Blacklist
@@ -105,7 +111,7 @@ func IsVerifier(t string) bool { return strings.HasSuffix(t, ".Verifier") }
 // (Appendix A.1: request-only and response-only types).
 func Supports(t string, s Side) bool {
 	switch t {
-	case QueryModifier, URLModifier, SkipRoundTrip,
+	case QueryModifier, URLModifier, SkipRoundTrip, PortModifier,
 		MethodVerifier, URLVerifier, QueryVerifier, FailureVerifier, PingbackVerifier:
 		return s == Request
 	case StatusModifier, StatusVerifier:
@@ -217,6 +223,8 @@ func (n *Node) Config() interface{} {
 		body["names"] = append([]string{}, n.Names...)
 	case n.T == StatusModifier || n.T == StatusVerifier:
 		body["statusCode"] = n.N
+	case n.T == PortModifier:
+		body["port"] = n.N
 	}
 	if n.HasScope {
 		body["scope"] = append([]string{}, n.Scope...)
@@ -228,11 +236,19 @@ func (n *Node) Config() interface{} {
 	case FaultScopeInvalid:
 		body["scope"] = []string{"reqest"}
 	case FaultScopeUnsupported:
-		if Supports(n.T, Request) {
-			body["scope"] = []string{"response"}
-		} else {
-			body["scope"] = []string{"request"}
+		own, other := "request", "response"
+		if !Supports(n.T, Request) {
+			own, other = other, own
 		}
+		var sc []string
+		for _, c := range ScopeUnsupportedVariants[n.FaultAt%len(ScopeUnsupportedVariants)] {
+			if c == 'o' {
+				sc = append(sc, own)
+			} else {
+				sc = append(sc, other)
+			}
+		}
+		body["scope"] = sc
 	}
 	out := map[string]interface{}{name: body}
 	if n.Fault == FaultTwoKeys {
@@ -634,7 +650,17 @@ func leaf(n *Node, s Side, req *Req, res *Res) []string {
 		}
 	case SkipRoundTrip:
 		req.Skip = true
-	case Noop:
+	case PortModifier:
+		// "alters the request URL and Host header to use the provided port";
+		// the Host header is written into the header map.
+		host := req.Host
+		if i := strings.LastIndex(host, ":"); i >= 0 {
+			host = host[:i]
+		}
+		hp := host + ":" + strconv.Itoa(n.N)
+		req.Host = hp
+		req.Header["Host"] = []string{hp}
+	case Noop, Inert:
 	default:
 		panic("treeref: unknown leaf " + n.T)
 	}
